@@ -8,6 +8,7 @@ pub mod c06;
 pub mod c07;
 pub mod c08;
 pub mod c09;
+pub mod c10;
 pub mod c11;
 pub mod c12;
 pub mod c13;
@@ -34,6 +35,7 @@ pub fn dispatch_run(id: &str, run: &mut Run) -> bool {
         "C07" => c07::run(run),
         "C08" => c08::run(run),
         "C09" => c09::run(run),
+        "C10" => c10::run(run),
         "C11" => c11::run(run),
         "C12" => c12::run(run),
         "C13" => c13::run(run),
@@ -59,6 +61,7 @@ pub fn dispatch_replay(id: &str, check: &str, case: Value, run: &mut Run) -> Res
         "C07" => c07::replay(check, case, run),
         "C08" => c08::replay(check, case, run),
         "C09" => c09::replay(check, case, run),
+        "C10" => c10::replay(check, case, run),
         "C11" => c11::replay(check, case, run),
         "C12" => c12::replay(check, case, run),
         "C13" => c13::replay(check, case, run),
@@ -116,6 +119,10 @@ pub fn survey(id: &str, n: usize, seed: u64) -> i32 {
 }
 
 pub fn worker_main(args: &[String]) -> i32 {
+    if args.len() >= 3 && args[0] == "c10-lib" {
+        println!("{}", c10::library_worker(args[1].parse().unwrap_or(0), args[2].parse().unwrap_or(10)));
+        return 0;
+    }
     if args.len() >= 3 && args[0] == "c05-batch" {
         print!("{}", c05::process_batch(args[1].parse().unwrap_or(0), args[2].parse().unwrap_or(10)));
         return 0;
